@@ -129,6 +129,11 @@ func runC05(c *Ctx) {
 	c.Rule("C05.B", "no accumulate-then-forward call on the response path", 30)
 	c.Rule("C05.W", "write-through writers, single-read readers", 10)
 	ruleNoOwnCopyLoop(c, p, "C05.W", "agent/utils", "agent/websockets", "agent/sessions", "agent/banner")
+	// an interim 1xx must not use up a wrapper's header latch (= C03.X / C14.X): afterwards the final
+	// header is dropped and every chunk the backend writes is acknowledged and discarded
+	c.Borrow(runC03, "C03.X", "C05.W", func(k string) bool {
+		return strings.Contains(k, "ResponseWriter:") || strings.Contains(k, "responseWriter:")
+	})
 	c.Rule("C05.P", "the body travels through two synchronous pipes", 6)
 	// the handler chain serves the parsed request itself (= C02.I): a copy re-bound to a context
 	// with a deadline taken from the proxy's start-time header ends a stream that is still being
